@@ -397,8 +397,10 @@ func init() {
 // ---------------------------------------------------------------- C15 (sort on)
 
 // permute returns a copy of f with messages and fields re-ordered the way a .proto author could:
-// members of a oneof stay contiguous; numbers, names and memberships are kept.
-func permute(f *ir.File, seed uint64) *ir.File {
+// members of a oneof stay contiguous; numbers, names and memberships are kept. With interleave the members of a
+// oneof need not stay together (a descriptor protoc does not write, but one the property's "all permutations of
+// field order, oneof membership kept" covers and other descriptor producers can emit).
+func permute(f *ir.File, seed uint64, interleave bool) *ir.File {
 	sh := shufflerFrom(seed)
 	out := ir.Clone(f)
 	msgs := make([]*ir.Message, len(out.Messages))
@@ -411,7 +413,7 @@ func permute(f *ir.File, seed uint64) *ir.File {
 		var blocks []block
 		byOneof := map[string]int{}
 		for _, fl := range m.Fields {
-			if fl.Oneof == "" {
+			if fl.Oneof == "" || interleave {
 				blocks = append(blocks, block{fl})
 				continue
 			}
@@ -466,6 +468,9 @@ func init() {
 			v := genLevelVariant(t, r, func(o *gen.Opts, k *gen.KOpts) { k.Sort = &sortOn; o.Comments = true; o.OneofHeavy = true })
 			rp := &Replay{Variants: []*pipeline.Variant{v}}
 			setExtra(rp, "perm_seed", rapid.Uint64Range(1, 1<<40).Draw(t, "perm_seed"))
+			if rapid.IntRange(0, 3).Draw(t, "interleave") == 0 {
+				setExtra(rp, "interleave", uint64(1))
+			}
 			if !sortOn {
 				drawInner(t, rp, 150)
 			}
@@ -473,8 +478,12 @@ func init() {
 		},
 		Run: func(tools *pipeline.Tools, r *Recorder, rp *Replay) (string, error) {
 			v := rp.Variants[0]
-			pf := permute(v.File, extraUint(rp, "perm_seed", 1))
+			inter := extraUint(rp, "interleave", 0) == 1
+			pf := permute(v.File, extraUint(rp, "perm_seed", 1), inter)
 			cm, om, mm := orderMoved(v.File, pf)
+			if inter && interleaved(pf) {
+				r.Class("oneof_members_interleaved")
+			}
 			if v.Cfg.Sort {
 				dir, err := tools.NewCaseDir("c15-")
 				if err != nil {
@@ -519,6 +528,23 @@ func init() {
 			return "", nil
 		},
 	}
+}
+
+// interleaved reports whether some oneof of f has members that are not contiguous.
+func interleaved(f *ir.File) bool {
+	for _, m := range f.Messages {
+		last := map[string]int{}
+		for i, fl := range m.Fields {
+			if fl.Oneof == "" {
+				continue
+			}
+			if j, ok := last[fl.Oneof]; ok && j != i-1 {
+				return true
+			}
+			last[fl.Oneof] = i
+		}
+	}
+	return false
 }
 
 func msgOrder(f *ir.File) []string {
